@@ -28,7 +28,7 @@
       for the executable reference implementations; all clauses are evaluated on a table of
       boundary doubles in RoundTripEvidence.v (tests). *)
 From CJ Require Import Base Dbl Tree LibcNum LibcPrint Grammar ParseDefs ParseSpec ParseComplete
-  ParseListStrtod PrintDefs PrintStrict RoundTripNum RoundTrip RoundTripEvidence.
+  ParseListStrtod PrintDefs PrintStrict RoundTripNum RoundTrip RoundTripPrint RoundTripEvidence.
 Local Open Scope Z_scope.
 
 (** * One number through print_number and parse_number *)
@@ -146,6 +146,52 @@ Theorem C04_fixed_point_tree : forall strtod fmt_d fmt_g15 fmt_g17 sscanf_lg,
 Proof. exact reparsed_idempotent. Qed.
 Print Assumptions C04_fixed_point_tree.
 
+(** * The buffer-level print entry points (printer refinement, PrintProofs.v) *)
+
+(** [fields_ok n] (PrintDefs.v): every node carries a C int and a well-formed double.
+    [no_failure]: no allocation request fails.  [hr]: the allocator offers realloc.  [junk]: the
+    contents of freshly allocated memory.  The returned bytes do not depend on any of them, nor
+    on the prebuffer size, nor on the caller's buffer: cJSON_Print / cJSON_PrintUnformatted
+    ([print]) return exactly the rendered text and its terminator, cJSON_PrintBuffered a block
+    that starts with them, cJSON_PrintPreallocated fills the caller's buffer with them (for
+    every buffer of at least length + 2 bytes, whatever the allocator would do). *)
+Theorem C04_buffer_independent : forall fmt_d fmt_g15 fmt_g17 sscanf_lg,
+  LibcPrintSpec fmt_d fmt_g15 fmt_g17 ->
+  forall n fmt txt,
+  fields_ok n = true -> render fmt_d fmt_g15 fmt_g17 sscanf_lg fmt 0 n = Some txt -> zlen txt + 2 <= c_INT_MAX ->
+  (forall hr junk, exists r,
+      print fmt_d fmt_g15 fmt_g17 sscanf_lg no_failure junk n fmt hr = Ok r /\ prr_block r = Some (txt ++ [0])) /\
+  (forall hr junk prebuffer, 0 <= prebuffer -> exists r rest,
+      cJSON_PrintBuffered fmt_d fmt_g15 fmt_g17 sscanf_lg no_failure junk n prebuffer fmt hr = Ok r /\
+      prr_block r = Some (txt ++ 0 :: rest)) /\
+  (forall hr junk oracle buf, zlen txt + 2 <= zlen buf -> zlen buf <= c_INT_MAX -> exists r rest,
+      cJSON_PrintPreallocated fmt_d fmt_g15 fmt_g17 sscanf_lg oracle junk n (Some buf) (zlen buf) fmt hr = Ok r /\
+      par_flag r = true /\ par_buffer r = Some (txt ++ 0 :: rest) /\
+      zlen (txt ++ 0 :: rest) = zlen buf).
+Proof. exact buffer_independent. Qed.
+Print Assumptions C04_buffer_independent.
+
+(** End to end on the transliterated code: print (any allocator configuration, any fresh-memory
+    contents), cJSON_Parse on the returned block, print again (any configuration): the tree in
+    the middle has the shape of the original and the two blocks are byte-identical. *)
+Theorem C04_print_parse_print : forall strtod fmt_d fmt_g15 fmt_g17 sscanf_lg,
+  strtod_ok strtod -> strtod_rfc strtod -> LibcStrictSpec fmt_d fmt_g15 fmt_g17 ->
+  LibcRoundTripSpec strtod fmt_d fmt_g15 fmt_g17 sscanf_lg ->
+  forall n fmt,
+  printable n = true -> rt_ok n = true -> (cdepth n <= nesting_limit)%nat -> fields_ok n = true ->
+  (forall txt, render fmt_d fmt_g15 fmt_g17 sscanf_lg fmt 0 n = Some txt -> zlen txt + 2 <= c_INT_MAX) ->
+  exists txt, render fmt_d fmt_g15 fmt_g17 sscanf_lg fmt 0 n = Some txt /\
+  forall hr junk, exists r pr,
+    print fmt_d fmt_g15 fmt_g17 sscanf_lg no_failure junk n fmt hr = Ok r /\ prr_block r = Some (txt ++ [0]) /\
+    cJSON_Parse strtod never_fails (txt ++ [0]) = Ok pr /\
+    pr_tree pr = Some (reparsed strtod fmt_d fmt_g15 fmt_g17 sscanf_lg n) /\
+    same_shape n (reparsed strtod fmt_d fmt_g15 fmt_g17 sscanf_lg n) /\
+    forall hr2 junk2, exists r2,
+      print fmt_d fmt_g15 fmt_g17 sscanf_lg no_failure junk2 (reparsed strtod fmt_d fmt_g15 fmt_g17 sscanf_lg n) fmt hr2 = Ok r2 /\
+      prr_block r2 = Some (txt ++ [0]).
+Proof. exact print_parse_print. Qed.
+Print Assumptions C04_print_parse_print.
+
 (** * The contract and the reference implementations *)
 
 (** clause S holds for the executable reference implementations (sscanf_lg is strtod_ref) *)
@@ -185,6 +231,13 @@ Theorem C04_nonvacuous_tree :
   cdepth ex_tree = 4%nat /\ strtod_ok strtod_ref /\ strtod_rfc strtod_ref.
 Proof. exact roundtrip_nonvacuous_tree. Qed.
 Print Assumptions C04_nonvacuous_tree.
+
+(** ... and so do the additional hypotheses of the buffer-level theorems *)
+Theorem C04_nonvacuous_fields :
+  fields_ok ex_tree = true /\
+  forall fmt txt, ref_render fmt 0 ex_tree = Some txt -> zlen txt + 2 <= c_INT_MAX.
+Proof. exact roundtrip_nonvacuous_fields. Qed.
+Print Assumptions C04_nonvacuous_fields.
 
 (** TEST: the conclusions of [C04_roundtrip] and [C04_fixed_point] evaluated on the example
     with the reference C library (the libc contract itself is not proved for it) *)
